@@ -40,7 +40,7 @@ ANCHORS = [
 REQUIRED = ["invocations_judged", "runs_judged", "feasibility_judged", "binding_invocations", "acceptance_judged", "bounds_judged",
             "estimator_bound_binding", "estimator_bound_sid_differs_from_station", "amp_periods_binding", "inactive_station_zero_checked",
             "algo:greedy", "algo:rr", "sort:fcfs", "sort:lcfs", "sort:edf", "sort:llf", "sort:lrpt", "est:None", "est:rampdown", "est:fixed",
-            "unint:on", "unint:off", "evse:EVSE", "evse:FR", "mixed_sign_network", "invocations_after_an_edit", "runs_with_a_reused_algorithm_object", "runs_on_predefined_sites"]
+            "unint:on", "unint:off", "evse:EVSE", "evse:FR", "mixed_sign_network", "invocations_after_an_edit", "runs_with_a_reused_algorithm_object", "runs_on_predefined_sites", "runs_with_a_user_subclass_overriding_run_preprocessing"]
 BUDGET_S = {"quick": 270, "thorough": 3300}
 
 
@@ -95,6 +95,9 @@ def cases(seed, tier):
             d["edits"] = gen.rand_edits(rng, d["network"], max(s_["departure"] for s_ in d["sessions"]))
         if rng.random() < 0.2:
             d["scheduler"]["mr"] = rng.choice([2, 3, 5])  # recomputed only every k periods (and at events)
+        if rng.random() < 0.07:
+            # a user subclass overriding the documented run_preprocessing hook (EVSE limits only): still a sorting-based algorithm
+            d["scheduler"].update(user_pre=True, est=None, unint=False)
         c = {"desc": d}
         if rng.random() < 0.12:
             c["warm"] = gen.scenario(rng, sched=dict(d["scheduler"]), kinds=("EVSE", "FR"), nmax=5, sess_max=6, constraint_free_p=0.1)
@@ -183,6 +186,8 @@ def run_case(case, obs):
     obs.evals = 0
     obs.ev("runs_judged")
     obs.ev("algo:" + sd["algo"])
+    if sd.get("user_pre"):
+        obs.ev("runs_with_a_user_subclass_overriding_run_preprocessing")
     obs.ev("sort:" + sd["sort"])
     obs.ev("est:" + str(sd.get("est")))
     obs.ev("unint:on" if sd.get("unint") else "unint:off")
